@@ -22,6 +22,9 @@ from pathlib import Path
 HERE = Path(__file__).resolve().parent
 VERIF = HERE.parent
 sys.path.insert(0, str(HERE))
+# the implementation under test: /repo's working tree (VERIF_REPO lets a scratch copy be checked)
+REPO = Path(os.environ.get("VERIF_REPO", "/repo")).resolve()
+sys.path.insert(0, str(REPO))
 
 import leanbridge as lb  # noqa: E402
 
